@@ -501,6 +501,11 @@ func cliCases(r *mon.Run, w *world, origPath string) {
 		expect string // "" = no plugin may start; else absolute path of the only program besides age
 		files  map[string]string
 	}
+	// expectSeq (by case name): several identity flags. The programs started
+	// must be a non-empty prefix of this sequence (the sentinels fail, so the
+	// tool may stop after the first): each -j starts the plugin it names, in
+	// flag order
+	expectSeqOf := map[string][]string{}
 	var cases []cc
 	addName := func(name string) {
 		lname := strings.ToLower(name)
@@ -563,9 +568,29 @@ func cliCases(r *mon.Run, w *world, origPath string) {
 			"only.age": string(refage.BuildFile(fk, []refage.Stanza{{Type: "x", Args: []string{"a"}, Body: make([]byte, 32)}, {Type: "b", Args: nil, Body: make([]byte, 16)}}, make([]byte, 16), []byte("cli")))}},
 	}
 	cases = append(noMatch, cases...)
+	// several identity flags in one command line: every -j names its own plugin
+	sx, szz := filepath.Join(w.dA, "age-plugin-x"), filepath.Join(w.dA, "age-plugin-zz")
+	otherKey := map[string]string{"other.txt": keys.NewX("X2").SecretStr + "\n", "zz": keys.NewX("X3").SecretStr + "\n", "q9": keys.NewX("X4").SecretStr + "\n"}
+	multi := []cc{
+		{"d-multi:-j x -j zz", []string{"-d", "-j", "x", "-j", "zz", "-o", "out.txt", "x.age"}, "", nil},
+		{"d-multi:-j zz -j x", []string{"-d", "-j", "zz", "-j", "x", "-o", "out.txt", "x.age"}, "", nil},
+		{"d-multi:-j x -i other.txt", []string{"-d", "-j", "x", "-i", "other.txt", "-o", "out.txt", "x.age"}, "", otherKey},
+		{"d-multi:-j x -i zz", []string{"-d", "-j", "x", "-i", "zz", "-o", "out.txt", "x.age"}, "", otherKey},
+		{"d-multi:-i other.txt -j zz", []string{"-d", "-i", "other.txt", "-j", "zz", "-o", "out.txt", "x.age"}, "", otherKey},
+		{"d-multi:-j x -i q9 -j zz", []string{"-d", "-j", "x", "-i", "q9", "-j", "zz", "-o", "out.txt", "x.age"}, "", otherKey},
+		{"d-multi:-j x -j x", []string{"-d", "-j", "x", "-j", "x", "-o", "out.txt", "x.age"}, "", nil},
+	}
+	expectSeqOf["d-multi:-j x -j zz"] = []string{sx, szz}
+	expectSeqOf["d-multi:-j zz -j x"] = []string{szz, sx}
+	expectSeqOf["d-multi:-j x -i other.txt"] = []string{sx}
+	expectSeqOf["d-multi:-j x -i zz"] = []string{sx}
+	expectSeqOf["d-multi:-i other.txt -j zz"] = []string{szz}
+	expectSeqOf["d-multi:-j x -i q9 -j zz"] = []string{sx, szz}
+	expectSeqOf["d-multi:-j x -j x"] = []string{sx, sx}
+	cases = append(multi, cases...)
 
-	if !r.Thorough() && len(cases) > 100 {
-		cases = cases[:100]
+	if !r.Thorough() && len(cases) > 107 {
+		cases = cases[:107]
 	}
 	for i, c := range cases {
 		os.WriteFile(filepath.Join(work, "x.age"), xfile, 0o600)
@@ -601,7 +626,11 @@ func cliCases(r *mon.Run, w *world, origPath string) {
 				continue
 			}
 			// the sentinel's own interpreter
-			if c.expect != "" && (e == c.expect || e == "/bin/sh" || e == "/usr/bin/sh" || strings.HasSuffix(e, "/dash") || strings.HasSuffix(e, "/printf")) {
+			inSeq := false
+			for _, q := range expectSeqOf[c.name] {
+				inSeq = inSeq || e == q
+			}
+			if (c.expect != "" || len(expectSeqOf[c.name]) > 0) && (e == c.expect || inSeq || e == "/bin/sh" || e == "/usr/bin/sh" || strings.HasSuffix(e, "/dash") || strings.HasSuffix(e, "/printf")) {
 				continue
 			}
 			extra = append(extra, e)
@@ -610,7 +639,17 @@ func cliCases(r *mon.Run, w *world, origPath string) {
 		if len(extra) > 0 {
 			r.Violate("cli-exec:"+posOf(c.name), fmt.Sprintf("age %s executed %v (expected only %q besides age itself); sentinels started: %v", strings.Join(c.argv, " "), extra, c.expect, starts), map[string]any{"argv": c.argv, "files": c.files})
 		}
-		if c.expect == "" && len(starts) > 0 && starts[0] != "" {
+		if seq := expectSeqOf[c.name]; len(seq) > 0 {
+			ok := len(starts) >= 1 && len(starts) <= len(seq)
+			for k := 0; ok && k < len(starts); k++ {
+				ok = starts[k] == seq[k]
+			}
+			if !ok {
+				r.Violate("cli-wrong-plugin:"+posOf(c.name), fmt.Sprintf("age %s started %v, want a non-empty prefix of %v (every -j names its own plugin, in flag order)", strings.Join(c.argv, " "), starts, seq), map[string]any{"argv": c.argv, "files": c.files})
+			} else {
+				r.Count("cli_multi_identity_flag_runs", 1)
+			}
+		} else if c.expect == "" && len(starts) > 0 && starts[0] != "" {
 			r.Violate("cli-sentinel-started:"+posOf(c.name), fmt.Sprintf("age %s started %v although no plugin may start", strings.Join(c.argv, " "), starts), map[string]any{"argv": c.argv, "files": c.files})
 		}
 		if c.expect != "" && (len(starts) != 1 || starts[0] != c.expect) {
